@@ -150,10 +150,17 @@ def _scalar(arg):
     return arg
 
 
+INPUT_ARRAYS = []    # (array handed to the code under test, pristine copy), per case
+
+
 def _cols(arg):
     if isinstance(arg, dict) and arg.get('t') == 'mask':
-        return np.array(arg['v'], dtype=bool)
-    return S.to_cols(arg)
+        a = np.array(arg['v'], dtype=bool)
+    else:
+        a = S.to_cols(arg)
+    if isinstance(a, np.ndarray):
+        INPUT_ARRAYS.append((a, a.copy()))
+    return a
 
 
 def _derive(obj, op, arg):
@@ -164,6 +171,7 @@ def _derive(obj, op, arg):
 
 def check(case):
     lay = case['lay']
+    del INPUT_ARRAYS[:]
     with S.OpenReader(lay, must_return) as o:
         root, A = o.reader, o.A
         # eager side first: decides whether the program is defined at all
@@ -193,8 +201,8 @@ def check(case):
                 if c is None:
                     out = must_return(what, lambda: lazy[k][rows])
                 else:
-                    cols = S.to_cols(c)
-                    exp = exp[:, cols]
+                    cols = _cols(c)
+                    exp = exp[:, S.to_cols(c)]
                     what = 'node%d[%r, %r]' % (k, rows, cols)
                     out = must_return(what, lambda: lazy[k][rows, cols])
                     if isinstance(out, BaseEphysReader):
@@ -216,6 +224,10 @@ def check(case):
                 out = must_return('node%d[:]' % k, lambda: lazy[k][:])
                 _same('node%d[:] (all nodes re-read at the end)' % k, out, eager[k],
                       'node-values-final')
+            # index / mask arrays handed over by the caller are inputs only
+            for a, orig in INPUT_ARRAYS:
+                require(np.array_equal(a, orig), 'a channel index array of the caller was '
+                        'modified', key='input-mutated', observed=a, expected=orig)
     return None
 
 
